@@ -81,6 +81,18 @@ CHECKS.update({
         design_ref="DESIGN.md section 5 C11"),
 })
 
+CHECKS.update({
+    "C12": dict(
+        category="exploration",
+        technique="TLA+ spec of literal generation and lexing over character classes (spec/ISStrLit.tla) model-checked by TLC; emitted strings concretised and round-tripped through the real tool",
+        text="TLC proves the round trip (well-formed literal, lexes back to the value, triple-quoted iff multi-line) "
+             "for all strings up to length 4 (quick) / 6 (thorough) over 11 character classes; all emitted strings "
+             "are concretised with seeded representatives, created as snapshots in eight contexts under black / no "
+             "formatter / format-command, and read back with ast.literal_eval; bytes and random Unicode strings "
+             "up to length 40 in addition. Concrete characters are sampled, hence `exploration`",
+        design_ref="DESIGN.md section 5 C12"),
+})
+
 NOT_YET = {
 }
 
